@@ -85,6 +85,28 @@ MISSED = {
  "C18-m6": "(regression of the generator) added operands with the same number of outcomes and the same end points but different outcomes in between + corpus entries",
  "C18-m10": "only the returned histogram was observed; the receiver and a histogram sharing its mapping must read as before after every operation",
  "C19-m9": "rejected calls were only made at top level; added mechanics whose nested callback makes the rejected call (7 guards), the enclosing callback catches the exception and continues with another nested evaluation (model: RRaise inside RTry)",
+ "C02-m12": "positions were Python ints; added numpy.int64 positions, objects with __index__ and mixtures",
+ "C04-m11": "pools of unorderable (symbolic) dice were absent; added nested / permuted / flat constructions of such pools next to numeric dice whose textual and numeric orders differ (outside the Coq model, oracle = one canonical order)",
+ "C04-m12": "indexing was only probed in range; every integer outside [-len, len) must raise IndexError, and p[i - len] must equal p[i]",
+ "C05-m11": "the mapping a histogram is built from was dropped at once; it is now modified afterwards (the histogram must not follow)",
+ "C06-m11": "pools of different dice rarely shared faces; added pool sources whose dice overlap (the same sorted roll comes from several combinations)",
+ "C06-m12": "histogram sources were H objects; added dicts, lists of pairs, one-shot iterators, generators and zip objects",
+ "C07-m11": "the deprecated spellings (H/P.explode, H/P.substitute) were only exercised by C08; C07 and C14 now run them too, with limits exactly on the boundary (0, False, 1) and the illegal fractional 0, through the pool spellings as well",
+ "C08-m12": "explode() always received an H; added dict / pairs / iterator / generator / zip / pool sources",
+ "C11-m11": "(filter verdict memoised by value) provenance-aware filters existed after round 5 but rarely met equal values with different verdicts; corpus entries added",
+ "C12-m11": "rollers were never labelled after construction; a fifth of the nodes is now built and then .annotate()d (twice for some), the copy being the roller that rolls",
+ "C12-m12": "max_depth = 0 substitutions were rare (10 per run); corpus entries added",
+ "C13-m11": "order statistics were asked of objects that stayed alive; added the same question asked of one short-lived object after another (address reuse)",
+ "C13-m12": "a pool of n copies of an object was never asked for one position right after that object's order statistics; added, with positions in range and just past either end (IndexError expected) and bool-typed members",
+ "C14-m11": "explode predicates were pure; added predicates that raise RecursionError / a marker / StopIteration at a given invocation, with limit 0 included (oracle: number of predicate calls, which branch becomes the sentinel, identity of the propagated exception)",
+ "C14-m12": "same as C07-m11",
+ "C15-m11": "rollers' sources were only read; added every in-place change a list would accept (item assignment / deletion, append, reverse, clear, attribute assignment) - all must be rejected and change nothing",
+ "C15-m12": "rolls always succeeded; added substitution rollers whose expansion operator fails after a few calls (the failed roll must leave the roller as it was)",
+ "C16-m12": "rational_t never rejected its arguments; added a strict rational_t that raises TypeError on the second outcome (exactly two calls, both with (count, total), the TypeError reaches the caller)",
+ "C17-m12": "randbytes / getrandbits were only tried up to 1000 bits; added 64 KiB boundaries and 800000 bits",
+ "C18-m11": "zero_fill was given lists; added one-shot iterables with an absent outcome in the middle",
+ "C18-m12": "accumulate was given histograms; added pools, dicts and iterators of pairs",
+ "C19-m12": "rejections were observed on immutable objects only; added Roll(...) construction from a lazy iterable that hits a rejected call after yielding outcomes (they must stay unassociated and usable)",
  "C16-m3": "histograms were built from mappings only; added construction from reversed pairs and from bare outcomes mixed with pairs (stored order not ascending)",
 }
 
